@@ -161,6 +161,56 @@ def run(ctx):
         ctx.count("argument kind", tag.split()[0])
         if got != want:
             ctx.mismatch(stream="argument kinds (T13)", request=line, object=f"{type(x).__name__}: {x!r}"[:80], model_says=got, code_says=want)
+    # ---- a Vector as the iterable, in states only a history reaches (an int vector that begins with a bool, an int vector holding only
+    #      bools, emptied vectors): Vector(v) is Vector(list(v)) - same refusal, or same elements, same value type, same later behaviour ----
+    def _mk(vt, items):
+        v_ = Vector([], value_type=vt)
+        v_.extend(items)
+        return v_
+    histories = [_mk(int, [True, 2, 3]), _mk(int, [True, False, True]), _mk(int, [1, True]), _mk(int, [False]), _mk(float, [1.5, 2.5]), _mk(str, ["a"]), _mk(bool, [True]),
+                 _mk(int, []), _mk(float, [])]
+    v_edit = Vector([1, 2, 3]); v_edit[0] = True
+    histories.append(v_edit)
+    v_del = Vector([1, True, False]); del v_del[0]
+    histories.append(v_del)
+    for src in histories:
+        for vt_kw in (None, src._value_type):
+            kw = {} if vt_kw is None else {"value_type": vt_kw}
+            o_v, o_l = outcome(lambda: Vector(src, **kw)), outcome(lambda: Vector(list(src), **kw))
+            ctx.case(("vector-source", f"{src._value_type.__name__} {list(src)!r}", str(vt_kw)))
+            ctx.count("source", "vector after a history")
+            same = o_v[0] == o_l[0] and (o_v[1] == o_l[1] if o_v[0] == "err" else (list(o_v[1]) == list(o_l[1]) and [type(x) for x in o_v[1]] == [type(x) for x in o_l[1]]
+                                                                                       and o_v[1]._value_type is o_l[1]._value_type))
+            if same and o_v[0] == "ok":
+                p_v, p_l = outcome(lambda: o_v[1].append(7)), outcome(lambda: o_l[1].append(7))
+                same = p_v[0] == p_l[0] and list(o_v[1]) == list(o_l[1])
+            if not same:
+                ctx.violation(what="Vector(v) differs from Vector(list(v))", source=f"{src._value_type.__name__} {list(src)!r}", value_type=str(vt_kw),
+                              observed=(show(o_v)[:80] if o_v[0] == "err" else f"{o_v[1]._value_type.__name__} {list(o_v[1])!r}"), required=(show(o_l)[:80] if o_l[0] == "err" else f"{o_l[1]._value_type.__name__} {list(o_l[1])!r}"))
+    # ---- == compares element lists and units (the units ATTRIBUTE: '' whether the entry is there, empty, or was removed) --------------
+    import copy as _copy, pickle as _pickle
+
+    def _routes(items, units):
+        out = [("fresh", Vector(list(items), units))]
+        a_ = Vector(list(items)); a_.units = units; out.append(("units assigned", a_))
+        if units == "":
+            b_ = Vector(list(items)); del b_.extended_properties["NI_UnitDescription"]; out.append(("entry deleted", b_))
+            c_ = Vector(list(items)); c_.extended_properties.pop("NI_UnitDescription"); out.append(("entry popped", c_))
+            d_ = Vector(list(items)); d_.extended_properties.clear(); out.append(("properties cleared", d_))
+            out.append(("pickled copy of entry deleted", _pickle.loads(_pickle.dumps(b_)))); out.append(("deep copy of entry deleted", _copy.deepcopy(b_)))
+        e_ = Vector(list(items), extended_properties={"NI_UnitDescription": units, "other": 1}); del e_.extended_properties["other"]; out.append(("from properties", e_))
+        return out
+    for items in ([1, 2, 3], ["a"], [1.5, 2.5], [True]):
+        for ua in ("", "V"):
+            for ub in ("", "V"):
+                for (la, va) in _routes(items, ua):
+                    for (lb, vb) in _routes(items, ub):
+                        want = ua == ub
+                        o1, o2 = outcome(lambda: va == vb), outcome(lambda: va != vb)
+                        ctx.case(("vector-eq", str(items), ua, ub, la, lb))
+                        if o1 != ("ok", want) or o2 != ("ok", not want):
+                            ctx.violation(what="Vector == is not equality of element lists and units", items=str(items), left=f"{la} (units {va.units!r})", right=f"{lb} (units {vb.units!r})",
+                                          observed=f"== {show(o1)[:30]}, != {show(o2)[:30]}", required=f"== {want}")
     # ---- every small slice assignment and slice deletion, against the list doing the same (extended slices with replacements of every
     #      length, the empty one included: a list refuses a size mismatch with ValueError and stays as it was) ---------------------------
     bounds = [None, -5, -2, -1, 0, 1, 2, 5]
